@@ -113,6 +113,12 @@ CLAIMED = {
   text="No violation after repair in ~30k (quick) / ~440k (thorough) cases per seed: 133 of 156 types have a view TypeDef compared; ~4.8k / 72k histories with up to 40 actions and 3 copies sharing structure under custom and minimal presets (mainnet in thorough); after every action the cached root must equal the root of a view rebuilt from the state's own bytes and the independent root of those bytes. Found 4 defects (electra attester-slashings view limit, ViewSignature scope, Transaction.View cast, FillZeroes(0) panic); catches 11 textual mutants incl. wrong field index, non-propagating setter and wrong view limit. Histories are sampled.",
   note="Trusted: refssz + schema table + the per-action model (field-name semantics; index = argument mod vector length). ztyp ComplexListView/BasicListView.Pop (dependency, unused by zrnt) clears the wrong index and is excluded from the action set. Full state-transition steps on tree-backed states are judged by C01/C02's per-slot root comparison.",
   ref="§3 C05"),
+ "C17": dict(
+  technique="property-based concurrent programs (rapid: component, 2-8 goroutines, per-goroutine call lists, release mode and Gosched bias) on one shared instance of the fork-choice wrapper, the pubkey cache (incl. the lazily decompressed keys it hands out) and each operation pool, built with -race; oracles: race detector silent (halt_on_error; a report promotes the in-flight program to the replay), every call returns within a confirmed 20 s watchdog, and for small programs the recorded history is linearizable (porcupine) against the component itself replayed single-threaded",
+  level="exploration",
+  text="Sampled schedules of generated call mixes: quick 2 240 programs (small ones run 3x), thorough 22 400 programs with ~56 000 repeat executions; every small program (<=4 goroutines x <=8 calls) is decided linearizable or not against a sequential specification that is the component itself (state compared by a structural fingerprint), so purely sequential defects stay with C09/C10/C16/C20. Six genuine concurrency defects found and repaired (two lazy-decompression races, three unlocked pool paths, one check-then-act in AddValidator that only linearizability could see); eleven mutants (dropped locks, RLock-only writers, check-then-act, a concurrency-only deadlock) are all caught, the lock mutants in 5/5 runs.",
+  note="Schedules are sampled, not enumerated; the race detector widens each executed schedule to its happens-before class, so absence of a report is not absence of a race. Small programs use an atomic stamp counter that orders non-overlapping calls. Callbacks invoked under the fork-choice lock are assumed to touch nothing shared. A schedule-dependent replay is looped up to 200 times. Two C17 runs must not execute at once (shared in-flight files). SyncCommitteeMessages.Select has no shared instance and is not covered.",
+  ref="§3 C17"),
 }
 PENDING_REASON = "check not built yet in this session (designed in DESIGN.md §3; will be claimed when its machinery is committed)"
 
